@@ -483,6 +483,9 @@ func (g *gen) program(p profile) []Op {
 		x -= p.wCompact
 		if x < p.wReopen {
 			op := Op{K: "reopen"}
+			if r.p(0.25) {
+				op.K = "setro"
+			}
 			if r.p(0.5) {
 				k := g.knobs("")
 				op.Knob = &k
@@ -641,7 +644,7 @@ func GenCase(prop string, seed uint64, thorough bool) *Case {
 	if prop == "C16" {
 		// change the filter policy across reopens, with and without AltFilters
 		for i := range ops {
-			if ops[i].K == "reopen" {
+			if ops[i].K == "reopen" || ops[i].K == "setro" {
 				k := c.Knobs
 				k.FilterBits = r.pick(0, 1, 4, 10, 64)
 				k.FilterBaseLg = r.pick(0, 4, 5, 8, 11, 14)
@@ -657,7 +660,7 @@ func GenCase(prop string, seed uint64, thorough bool) *Case {
 		// a concurrent observer taking snapshots; the DB must stay open
 		var keep []Op
 		for _, o := range ops {
-			if o.K != "reopen" {
+			if o.K != "reopen" && o.K != "setro" {
 				keep = append(keep, o)
 			}
 		}
